@@ -73,7 +73,7 @@ func (v *pageVocab) releasesWAL(callee *ssa.Function) bool {
 }
 
 func ruleSHADOW(p *Program, rep *Report) {
-	rep.Rule("SHADOW", 3, "a page write scheduled by Page.doFlush never targets a location the committed state references: the page is new, or it was redirected to a freshly allocated overwrite page (id == ondiskID, allocWALID != 0), or it goes back to the original that the committed mapping no longer references (id != ondiskID, WAL entry released)")
+	rep.Rule("SHADOW", 2, "a page write scheduled by Page.doFlush never targets a location the committed state references: the page is new, or it was redirected to a freshly allocated overwrite page (id == ondiskID, allocWALID != 0), or it goes back to the original that the committed mapping no longer references (id != ondiskID, WAL entry released)")
 	rep.Rule("SCHEDULE-SITES", 3, "every (*writer).Schedule call site is one of the protocol's sites: the header write, the checkpoint copy (followed by freeWALID of the same id), or Tx.scheduleWrite — which in turn is only used by Page.doFlush and as the page callback of the two fileCommitSerialize routines")
 	v := newPageVocab(p)
 	fn := v.doFlush
@@ -111,7 +111,7 @@ func ruleSHADOW(p *Program, rep *Report) {
 				if !ok || addrField(st.Addr) != v.fOndisk {
 					continue
 				}
-				facts := p.ctxFacts(b)
+				facts := expandPredicates(p, p.ctxFacts(b), 0)
 				val := stripConv(st.Val)
 				// (b) ondiskID := allocWALID(...) on the id == ondiskID edge, result != 0
 				if c := callTo(val, v.allocWALID); c != nil {
@@ -400,15 +400,16 @@ func ruleWALRELEASEONFREE(p *Program, rep *Report) {
 		}
 		if ifi, ok := b.Instrs[len(b.Instrs)-1].(*ssa.If); ok {
 			for _, pol := range []bool{true, false} {
-				d := condDNF(ifi.Cond, pol, 0, map[ssa.Value]bool{})
-				if len(d) == 1 && len(d[0]) == 1 {
-					if op, ok := v.idCmp(d[0][0]); ok && op == token.EQL {
-						succ := b.Succs[1]
-						if pol {
-							succ = b.Succs[0]
-						}
-						blockedEdges[cfgEdge{b, succ}] = true
+				d := expandPredicates(p, condDNF(ifi.Cond, pol, 0, map[ssa.Value]bool{}), 0)
+				// on this edge the page is known not to be redirected (id == ondiskID in every disjunct)
+				if len(d) > 0 && d.every(func(cj conj) bool {
+					return cj.has(func(a atom) bool { op, ok := v.idCmp(a); return ok && op == token.EQL })
+				}) {
+					succ := b.Succs[1]
+					if pol {
+						succ = b.Succs[0]
 					}
+					blockedEdges[cfgEdge{b, succ}] = true
 				}
 			}
 		}
